@@ -95,7 +95,7 @@ def run(module, cfg, env=None, workers=None, timeout=900, simulate=None, depth=N
     r.ok = (p.returncode == 0 and r.violated is None and "Model checking completed. No error has been found" in p.stdout) \
         or (simulate is not None and p.returncode == 0 and r.violated is None)
     if not r.ok and r.violated is None:
-        tail = "\n".join(p.stdout.splitlines()[-40:])
+        tail = "\n".join([l for l in p.stdout.splitlines() if not l.startswith(("Parsing file", "Semantic processing", "Linting of", "  |", "<", "  line ", "The coverage", "End of statistics"))][-40:])
         if not keep:
             shutil.rmtree(out, ignore_errors=True)
         raise TLCError("TLC failed (exit %s) on %s/%s:\n%s" % (p.returncode, module, cfg, tail))
